@@ -21,6 +21,9 @@ var c15Corpus = []string{
 	"//evil.example/%2F..", "\\\\\\evil.example", "/\x0b/evil.example", "/\x00/evil.example",
 	// dot segments: harmless to a browser as they stand, but http.Redirect path.Clean()s the target
 	"/./\\evil.example/", "/x/../\\evil.example/x", "/.//evil.example/", "/x/..//evil.example", "/./\\\\evil.example", "/.\\/evil.example", "/..//evil.example", "/a/./../\\evil.example",
+	// the same behind a '#' or '?': harmless to a browser as they stand (the rest is fragment / query), but
+	// http.Redirect cleans everything up to the first '?' as a path — a '#' is no delimiter to it
+	"/.#/../\\evil.example/", "/x#/../\\evil.example/x", "/a/b#/../../\\evil.example", "/#/../\\evil.example/", "/x?/../\\evil.example/", "/x?y=/../\\evil.example", "/#\\evil.example", "/ok#frag/..//evil.example/",
 	// absolute and scheme-relative references that name the site's OWN host: a layer that "reduces them to
 	// their path" must not end up with a path that is itself off-site
 	"https://site.test//evil.example/x", "http://site.test//evil.example", "https://SITE.test//evil.example/", "https://site.test/\\evil.example/x", "//site.test//evil.example/x",
